@@ -42,10 +42,14 @@ func guard(f func()) (panicMsg string) {
 func trimStack(st string) string {
 	lines := strings.Split(st, "\n")
 	var keep []string
-	for i := 0; i < len(lines) && len(keep) < 24; i++ {
+	for i := 0; i < len(lines) && len(keep) < 8; i++ {
 		l := lines[i]
-		if strings.Contains(l, "participle") || strings.Contains(l, "panic") {
-			keep = append(keep, strings.TrimSpace(l))
+		if strings.Contains(l, "participle") && !strings.HasPrefix(l, "\t") {
+			l = strings.TrimSpace(l)
+			if k := strings.Index(l, "("); k > 0 && strings.HasPrefix(l, "github.com/alecthomas/participle/v2") {
+				l = l[:k]
+			}
+			keep = append(keep, l)
 		}
 	}
 	return strings.Join(keep, "\n")
@@ -75,7 +79,13 @@ func runProp(t *testing.T, id, rule string, prop func(t *rapid.T, r *vstat.Run))
 	})
 	if !ok {
 		r.Freeze()
-		r.SaveViolation()
+		if r.LastFailure() != nil {
+			r.SaveViolation()
+		} else {
+			// the property function itself broke (generator/harness bug): never a verdict
+			r.Inconclusive("harness failure without a recorded case (see test output)")
+			fmt.Println("HARNESS-ERROR property=" + id + ": rapid failed without a recorded failing case")
+		}
 	}
 	r.Flush()
 	if !ok {
